@@ -377,6 +377,33 @@ theorem psbtin_reserialize_keeps_all_but (ver : Nat) (b out : Bytes) (h : reserI
 theorem psbtin_reserialize_fixed_point (ver : Nat) (b out : Bytes) (h : reserIn ver b = .ok out) :
     reserIn ver out = .ok out := reserIn_fixed ver b out h
 
+/-- output maps: the records of `PsbtOut.parse(b).serialize()` are exactly the records of `b` other than a
+    whole-value field (not amount / label) with an empty value -/
+theorem psbtout_reserialize_keeps_all_but (ver : Nat) (b out : Bytes) (h : reserOut ver b = .ok out) :
+    ∃ recs recs', parseMap b = .ok (recs, []) ∧ parseMap out = .ok (recs', []) ∧
+      ∀ r, r ∈ recs' ↔ r ∈ recs ∧ droppedOut r = false := by
+  obtain ⟨recs, hp, _, rfl⟩ := reserOut_ok ver b out h
+  have ⟨hv, _⟩ := serMap_parseMap _ _ _ hp
+  exact ⟨recs, _, hp, parseMap_sorted_keptOut recs hv, mem_sorted_keptOut recs⟩
+
+theorem dropped_out_explicit (r : Rec) (h : droppedOut r = true) :
+    r.2 = [] ∧ r.1.length = 1 ∧ OUT_WHOLE.contains (tyOf r.1) = true := by
+  simp only [droppedOut, Bool.and_eq_true, List.isEmpty_iff, keyData] at h
+  obtain ⟨⟨⟨a, b⟩, _⟩, d⟩ := h
+  refine ⟨d, ?_, a⟩
+  cases hk : r.1 with
+  | nil => rw [hk] at a; simp [tyOf, OUT_WHOLE] at a
+  | cons x xs => rw [hk] at b; simp at b; simp [b]
+
+theorem psbtout_reserialize_fixed_point (ver : Nat) (b out : Bytes) (h : reserOut ver b = .ok out) :
+    reserOut ver out = .ok out := reserOut_fixed ver b out h
+
+example : droppedOut ([0], []) = true ∧ droppedOut ([3], [0, 0, 0, 0, 0, 0, 0, 0]) = false
+    ∧ droppedOut ([6], []) = true ∧ droppedOut ([0xfc], []) = false := by decide
+/-- a tap tree record with key data is refused (regression for /repo bfff2ab9) -/
+example : recordOkOut 0 ([6, 0xaa], [0, 0xc0, 1, 0x51]) = false ∧ recordOkOut 0 ([6], [0, 0xc0, 1, 0x51]) = true := by
+  decide
+
 -- an explicit sighash type of zero is a record (kept); an empty redeem script is normalised away; a
 -- partial signature goes once the input is finalized; an unknown record stays even then
 example : droppedIn false ([3], [0, 0, 0, 0]) = false ∧ droppedIn false ([4], []) = true
